@@ -95,7 +95,16 @@ def do_case(ctx, inp):
     if dpv_stmt != dpv:
         ctx.tags["default-level-tag-on-a-column-that-is-no-helper-node"] += 1
     feas = None
-    if len(ids) <= (12 if ctx.quick else 15):
+    tagsets = {}
+    for n_ in subs(t):
+        if n_["k"] == "node": tagsets.setdefault(n_["id"], set()).add(n_.get("prio"))
+    coincident = any(len(v) > 1 for v in tagsets.values())
+    if coincident:
+        # a generated non-default branch that coincides with a plain sub-rule elsewhere: the column is both, and which level
+        # it belongs to is not fixed by the statement (DESIGN §12) — the ranking oracle is not applied; what the code does is
+        # still tied to the model (default_prios, objective, certificate)
+        ctx.tags["coincident-non-default-branch-ranking-oracle-not-applied"] += 1
+    if len(ids) <= (12 if ctx.quick else 15) and not coincident:
         feas = [x for x in itertools.product((0, 1), repeat=len(ids)) if all(row_ok(r, dict(zip(ids, x))) for r in rows)]
     for prio, w in zip(prios, objs):
         w = [int(v) for v in w]
